@@ -20,6 +20,7 @@ import (
 	"strings"
 	"time"
 
+	"github.com/aws/aws-sdk-go-v2/service/s3/types"
 	"github.com/gofiber/fiber/v2"
 	"github.com/versity/versitygw/auth"
 )
@@ -35,6 +36,26 @@ type EventMeta struct {
 	ObjectSize  int64
 	ObjectETag  *string
 	VersionId   *string
+	// FailedDeletes names the entries of a DeleteObjects request that were
+	// not deleted (the Error elements of the answer): they are not notified
+	FailedDeletes []types.Error
+}
+
+// deleteFailed reports whether the DeleteObjects entry obj is one of the
+// entries the request failed for.
+func (m EventMeta) deleteFailed(obj types.ObjectIdentifier) bool {
+	str := func(s *string) string {
+		if s == nil {
+			return ""
+		}
+		return *s
+	}
+	for _, e := range m.FailedDeletes {
+		if str(e.Key) == str(obj.Key) && str(e.VersionId) == str(obj.VersionId) {
+			return true
+		}
+	}
+	return false
 }
 
 type EventSchema struct {
